@@ -51,6 +51,10 @@ PATTERNS = {
              dict(its0=rng0(4, 6, 2), its1=rng0(4, 6, 1), chk=[]),
              dict(its0=rng0(6, 8, 2), its1=rng0(6, 8, 1), chk=[8])],
 }
+PATTERNS['level_ranges'] = [
+    dict(its0=rng0(0, 4, 2), its1=rng0(0, 5, 1), chk=[4]),
+    dict(its0=rng0(6, 10, 2), its1=rng0(5, 9, 1), chk=[]),
+    dict(its0=rng0(12, 16, 4), its1=rng0(10, 17, 1), chk=[16])]
 PATTERNS['changing_group'] = [
     dict(its0=rng0(0, 4, 2), its1=rng0(0, 4, 1), chk=[4],
          extra=['phi', 'Pi']),
